@@ -353,9 +353,47 @@ func runC17(c *Ctx) {
 				c.Violate("C17:random-tally", fmt.Sprintf("random placement, %d rounds: CLI printed %q — wins1+wins2+ties must equal the rounds and both tie counts must agree", rounds, so.String()), cs)
 				return
 			}
-			// if every legal placement gives the same outcome the tallies are determined; sample a few placements
 			outcome = "random"
 			c.Inc("random_placement_tallies_checked")
+			// on small cores the reference enumerates EVERY placement the tool may draw
+			// (2*length .. size-length-1): a tally can only contain outcomes that some placement produces,
+			// and when all placements agree the tallies are determined
+			lo, hi := 2*cfg.Length, cfg.CoreSize-cfg.Length-1
+			if cfg.CoreSize <= 600 && int64(hi-lo+1)*int64(cycles) <= 3000000 && hi >= lo {
+				poss := map[string]bool{}
+				for pos := lo; pos <= hi; pos++ {
+					a := run(pos)
+					switch {
+					case a[0] && a[1]:
+						poss["tie"] = true
+					case a[0]:
+						poss["1wins"] = true
+					case a[1]:
+						poss["2wins"] = true
+					default:
+						poss["none"] = true
+					}
+				}
+				bad := ""
+				if w1w > 0 && !poss["1wins"] {
+					bad = "a win for warrior 1"
+				} else if w2w > 0 && !poss["2wins"] {
+					bad = "a win for warrior 2"
+				} else if w1t > 0 && !poss["tie"] {
+					bad = "a tie"
+				}
+				if bad != "" {
+					c.Violate("C17:random-impossible-outcome", fmt.Sprintf("random placement over %d rounds: CLI printed %q, i.e. %s, but no placement in %d..%d produces that outcome in the reference MARS (possible: %v)", rounds, so.String(), bad, lo, hi, poss), cs)
+					return
+				}
+				c.Inc("random_placement_all_placements_enumerated")
+				if len(poss) == 1 {
+					c.Inc("random_placement_outcome_determined")
+					for k := range poss {
+						outcome = "random-determined-" + k
+					}
+				}
+			}
 		}
 		c.Inc("outcome_" + outcome)
 		if (outcome != "tie" && outcome != "random" && outcome != "survives") || flagset != "-F" {
